@@ -93,6 +93,9 @@ func runChains(r *Rng, o *Out, nHist, nBlocks int, hist Hist, caseJSON map[strin
 				if b == 0 {
 					ntx = 1
 				}
+				if b == 1 || b == 2 {
+					ntx = 2
+				}
 				var txns coin.Transactions
 				var txIns []coin.UxArray
 				var kinds []string
@@ -108,6 +111,12 @@ func runChains(r *Rng, o *Out, nHist, nBlocks int, hist Hist, caseJSON map[strin
 					if b == 0 {
 						so.NOut = 6
 						so.Fee = "rand"
+					} else if b == 1 || b == 2 {
+						// fixed: a valid transaction next to one that creates hours (both orders)
+						if (k == 0) == (b == 2) {
+							so.HoursExtra = []uint64{1000000000, 1}[b-1]
+							tk = "creates-hours"
+						}
 					} else {
 						switch x := r.Intn(20); {
 						case x < 7:
